@@ -37,6 +37,7 @@ type rumpKey struct {
 type rumpPage struct {
 	keys   []int // indexes into the script's key list
 	cursor int64 // cursor returned with this page (0 = last)
+	delay  time.Duration // the source takes this long to answer the SCAN that returns this page
 }
 
 type rumpScript struct {
@@ -54,6 +55,7 @@ type rumpConf struct {
 	threshold uint64
 	policy    string
 	keyFile   bool
+	qps       int
 }
 
 func (c rumpConf) apply() {
@@ -61,6 +63,9 @@ func (c rumpConf) apply() {
 	c.filt.apply()
 	o.TargetDB, o.ScanKeyNumber, o.BigKeyThreshold, o.KeyExists = c.targetDB, c.keyNumber, c.threshold, c.policy
 	o.Qps, o.TargetReplace, o.ScanSpecialCloud = 200000, true, ""
+	if c.qps > 0 {
+		o.Qps = c.qps
+	}
 }
 
 func resetRumpConf() {
@@ -74,6 +79,9 @@ func drawRumpScript(t *rapid.T, c rumpConf, id int) *rumpScript {
 	if c.keyFile {
 		ndb = 1
 	}
+	if c.qps > 0 && ndb < 3 {
+		ndb = 3
+	}
 	dbs := rapid.SliceOfNDistinct(rapid.SampledFrom([]int{0, 1, 2, 3, 7, 10, 11, 15}), ndb, ndb, func(i int) int { return i }).Draw(t, "dbs")
 	s.dbs = dbs
 	seen := map[string]bool{}
@@ -81,6 +89,9 @@ func drawRumpScript(t *rapid.T, c rumpConf, id int) *rumpScript {
 		nk := rapid.SampledFrom([]int{1, 2, 3, int(c.keyNumber) - 1, int(c.keyNumber), int(c.keyNumber) + 1, 2 * int(c.keyNumber), 7}).Draw(t, "nkeys")
 		if nk < 1 {
 			nk = 1
+		}
+		if c.qps > 0 {
+			nk = 4 // a low rate limit makes every key cost time; still more keys than one tick's tokens
 		}
 		var idx []int
 		for i := 0; i < nk; i++ {
@@ -143,6 +154,10 @@ func drawRumpScript(t *rapid.T, c rumpConf, id int) *rumpScript {
 		if rapid.Bool().Draw(t, "trailingEmpty") {
 			pages = append(pages, rumpPage{cursor: cur})
 		}
+		if c.qps > 0 && len(pages) >= 2 && db == dbs[0] {
+			// a slow source early in the run: tokens of the rate limiter stay unused for a tick
+			pages[1].delay = 1300 * time.Millisecond
+		}
 		pages[len(pages)-1].cursor = 0
 		s.pages[db] = pages
 	}
@@ -184,6 +199,13 @@ func newRumpSource(s *rumpScript) *mredis.Server {
 		for i, p := range pages {
 			if p.cursor != 0 {
 				next[fmt.Sprint(db, "/", p.cursor)] = i + 1
+			}
+		}
+	}
+	src.Gate = func(cs *mredis.ConnState, argv [][]byte) {
+		if strings.EqualFold(string(argv[0]), "scan") && len(argv) > 1 {
+			if pi, ok := next[fmt.Sprint(cs.DB, "/", string(argv[1]))]; ok && pi < len(s.pages[cs.DB]) {
+				time.Sleep(s.pages[cs.DB][pi].delay)
 			}
 		}
 	}
@@ -256,7 +278,7 @@ func runRump(c rumpConf, s *rumpScript, id int) rumpOutcome {
 	done := logcap.Start(func() { gidCh <- logcap.Gid(); ex.VerifExec() })
 	gid := <-gidCh
 	var res logcap.Result
-	deadline := time.After(12 * time.Second)
+	deadline := time.After(20 * time.Second)
 wait:
 	for {
 		select {
@@ -275,7 +297,7 @@ wait:
 			}
 			src.Close()
 			tgt.Close()
-			return rumpOutcome{"no-termination", "the executor did not return within 12 s of start (the final scan cursor of the last database had been served)"}
+			return rumpOutcome{"no-termination", "the executor did not return within 20 s of start (the final scan cursor of the last database had been served)"}
 		}
 	}
 	time.Sleep(5 * time.Millisecond)
@@ -346,6 +368,9 @@ func c16Batch(t *rapid.T) {
 		policy:    rapid.SampledFrom([]string{"none", "rewrite"}).Draw(t, "policy")}
 	c.filt = drawFilterConf(t, false, nil)
 	c.filt.slots, c.filt.lua = nil, false
+	if rapid.IntRange(0, 3).Draw(t, "lowQps") == 0 {
+		c.qps = rapid.SampledFrom([]int{2, 3, 5}).Draw(t, "qps") // the rate limiter really limits
+	}
 	c.apply()
 	defer resetRumpConf()
 	defer quietLog()()
